@@ -272,10 +272,10 @@ def checkC43 (m : Mon) (fs : List String) (pre post : Snap) (accepted : List (Ke
     | _ => none
   firstSome (perWatcher ++ [c5, c6a, c6b, c34])
 
-/-- C44 clauses evaluated on one step of the implementation. `strictTrigger = false` (monitor `c44b`) leaves out
-    the sub-clause "the ACTIVE server's stream failed" (violated by the unchanged tree: known findings F19, F20)
-    so that the cases that run under it keep checking everything else after the first such switch. -/
-def checkC44 (m : Mon) (strictTrigger : Bool) (fs : List String) (pre post : Snap) : Option String :=
+/-- C44 clauses evaluated on one step of the implementation. (The sub-clause "the ACTIVE server's stream failed"
+    was violated before /repo 98104fb: findings F40, F41, fixed.) -/
+def checkC44 (m : Mon) (fs : List String) (pre post : Snap) : Option String :=
+  let strictTrigger := true
   let stateOf (s : Snap) (i : Nat) : String := (s.srv[i]?.map (·.state)).getD "closed"
   let openOf (s : Snap) : List Nat := (List.range s.srv.length).filter fun i => stateOf s i ≠ "closed"
   let inv : Option String :=
@@ -377,8 +377,7 @@ def observe (m : Mon) (fs : List String) (impl : String) : Mon × String :=
       | _ => m.accepted
     let rel : Option String := match fs with | ["release"] => checkRelease m pre post | _ => none
     let verdict := if m.which = "c43" then checkC43 m fs pre post accepted
-                   else if m.which = "c44" then firstSome [checkC44 m true fs pre post, rel]
-                   else if m.which = "c44b" then firstSome [checkC44 m false fs pre post, rel] else none
+                   else if m.which = "c44" then firstSome [checkC44 m fs pre post, rel] else none
     let newW : Option Nat := match fs with | ["watch", _, _, w] => w.toNat? | _ => none
     -- a watcher that registers now has been told nothing (watcher ids may be reused after unwatch)
     let gs0 := match newW with | some w => setGhost m.ghosts w {} | none => m.ghosts
